@@ -71,4 +71,14 @@ for (const h of job.histories || []) {
     out.histories.push({ id: h.id, steps })
   } catch (e) { out.histories.push({ id: h.id, error: String(e && e.stack || e) }) }
 }
+// (d) capacity: many distinct rewritten files, then look the early ones up again (the map of the most
+// recent rewrite of *every* file must still be there)
+if (job.capacity) {
+  try {
+    const { map, n, positions, probes } = job.capacity
+    const trailer = 'x\n//# sourceMappingURL=data:application/json;base64,' + Buffer.from(map).toString('base64')
+    for (let i = 0; i < n; i++) main.cacheRewrittenSourceMap('/cap/f' + i + '.js', trailer)
+    out.capacity = probes.map(i => ({ i, answers: positions.map(([l, c]) => smIndex.getSourcePathAndLineFromSourceMaps('/cap/f' + i + '.js', l, c)) }))
+  } catch (e) { out.capacity = { error: String(e && e.stack || e) } }
+}
 process.stdout.write(JSON.stringify(out))
